@@ -596,7 +596,27 @@ def d_map(ctx, rng, ds, paths, kind):
 def d_rank(ctx, rng, ds, paths, kind):
     c = _c16()
     axis = rng.choice(["leadtime", "time", "location"])
-    argv = ["-m", "mae", "-type", "rank", "-x", axis]
+    # (false alarm ratio above a high threshold: undefined for an input that never forecasts the event in a slice, defined
+    #  for the other - such a slice is left out of the ranking)
+    thr = rng.choice([9.0, 11.0, 12.5])
+    use_far = rng.random() < 0.6
+    if use_far:
+        # make sure of such a slice: at the first common lead time input 1 never forecasts the event, input 0 does
+        import copy
+        import tempfile
+        ds = copy.deepcopy(ds)
+        axis = "leadtime"
+        l0 = gen.fnum(refmodel.common_dims(ds)[1][0])
+        for k_, c_ in ds["inputs"][1]["cells"].items():
+            if k_.split("|")[1] == l0 and c_.get("fcst") is not None:
+                c_["fcst"] = 0.0
+        hit = [c_ for k_, c_ in ds["inputs"][0]["cells"].items() if k_.split("|")[1] == l0 and c_.get("fcst") is not None
+               and c_.get("obs") is not None]
+        if hit:
+            hit[0]["fcst"] = 14.0
+        d2 = tempfile.mkdtemp(prefix="rank", dir=ctx.workdir)
+        paths, _ = gen.materialize(ds, d2, None)
+    argv = (["-m", "far", "-r", gen.fnum(thr)] if use_far else ["-m", "mae"]) + ["-type", "rank", "-x", axis]
     fig, case = c.run(ctx, paths, argv, ds)
     if fig is None:
         return
@@ -604,7 +624,15 @@ def d_rank(ctx, rng, ds, paths, kind):
     cols = []
     for k in range(F):
         sl = refmodel.slices(ds, k, [("obs",), ("fcst",)], axis)
-        cols.append([refmetrics.deterministic("mae", [x[0] for x in cs], [x[1] for x in cs]) for lab, cs in sl])
+        if use_far:
+            col = []
+            for lab, cs in sl:
+                a_ = sum(1 for x in cs if x[1] > thr and x[0] > thr)
+                b_ = sum(1 for x in cs if x[1] > thr and not x[0] > thr)
+                col.append(b_ / float(a_ + b_) if (a_ + b_) > 0 else NAN)
+            cols.append(col)
+        else:
+            cols.append([refmetrics.deterministic("mae", [x[0] for x in cs], [x[1] for x in cs]) for lab, cs in sl])
     rows = list(zip(*cols))
     valid = [r for r in rows if all(v == v for v in r)]
     allv = [v for r in rows for v in r if v == v]
@@ -619,7 +647,7 @@ def d_rank(ctx, rng, ds, paths, kind):
         order = sorted(range(F), key=lambda i: r[i])
         for pos, i in enumerate(order):
             share[i][pos] += 1
-    n = float(len(valid)) if valid else NAN
+    n = float(len(valid)) if valid else 1.0      # no slice valid for every input: empty bars
     bars = [p for p in fig.axes[0].patches]
     if len(bars) != (F + 1) * F:
         ctx.violation("rank|bars", "%d bars, expected %d" % (len(bars), (F + 1) * F), case)
